@@ -49,7 +49,7 @@ CODE_TAG = {11: "C06:leasepath_overwrites_other_leader", 21: "C06:leasepath_over
             12: "C06:recovery_overwrites_newer", 22: "C06:recovery_overwrites_newer",
             31: "C06:restart_drops_infected", 33: "C06:sir_stops_before_all_peers"}
 # the only codes a family of the extra phase may produce
-ALLOWED = {"G": {11, 21}, "Bd": {11, 21, 33}, "D2": {11, 21}, "F": {12, 22, 31}, "R": {31}, "U": {33}}
+ALLOWED = {"G": {11, 21}, "Bd": {11, 21, 12, 22, 33}, "D2": {11, 21, 12, 22, 33}, "F": {12, 22, 31, 33}, "R": {31}, "U": {33}, "Q3": {33}}
 
 
 # --------------------------------------------------------------------------- generator
@@ -150,20 +150,27 @@ def sweeps(nodes, T, rng, skip=None):
     return ops
 
 
-def gen_B(rng, quiesce=False, mode="one"):
-    nodes = rng.choice([[1, 2], [1, 2, 3], [1, 2, 3]])
+def gen_B(rng, quiesce=False, mode="one", nodes=None):
+    """quiescing scripts of the main batch use two nodes (on three, SIR may stop early: family Q3);
+    three-node scripts without sweeps end with a write, so their final state is never quiescent"""
+    if nodes is None:
+        nodes = [1, 2] if quiesce else rng.choice([[1, 2], [1, 2, 3], [1, 2, 3]])
     T = rng.choice([1, 1, 2])
     owner = {}
     ops = [life_op(rng, nodes, owner, mode) for _ in range(rng.randrange(5, 16) if not quiesce else rng.randrange(3, 10))]
     if quiesce:
         ops += sweeps(nodes, T, rng)
+    elif len(nodes) > 2:
+        k = rng.choice(KEYS)
+        own = owner.setdefault(k, rng.choice(nodes))
+        ops.append({"op": "write", "n": own, "k": k, "v": rng.randrange(1, 90), "lease": 0})
     fam = ("C" if quiesce else "B") if mode == "one" else "Bd"
     return {"nodes": nodes, "T": T, "ops": ops, "fam": fam}
 
 
-def gen_E(rng):
+def gen_E(rng, nodes=None):
     """a key is overwritten while feedback for its previous version is still on its way"""
-    nodes = rng.choice([[1, 2], [1, 2], [1, 2, 3]])
+    nodes = nodes or [1, 2]
     T = rng.choice([1, 1, 2])
     a = rng.choice(nodes)
     b = rng.choice([m for m in nodes if m != a])
@@ -229,6 +236,8 @@ def gen_D(rng):
     base = gen_B(rng) if rng.random() < 0.5 else gen_A(rng)
     shared = base["fam"] == "A"
     c = malform(rng, base, shared_keys=shared)
+    if len(c["nodes"]) > 2 and not shared:
+        c["ops"].append({"op": "write", "n": 1, "k": 6, "v": 1, "lease": 0})
     c["fam"] = "D"
     return c
 
@@ -342,10 +351,14 @@ def gen_extra(rng, n):
             out.append(c)
         elif x < 0.75:
             out.append(gen_F(rng))
-        elif x < 0.9:
+        elif x < 0.87:
             out.append(gen_R(rng))
-        else:
+        elif x < 0.94:
             out.append(gen_U(rng))
+        else:
+            c = gen_E(rng, nodes=[1, 2, 3]) if rng.random() < 0.5 else gen_B(rng, quiesce=True, nodes=[1, 2, 3])
+            c["fam"] = "Q3"
+            out.append(c)
     return out
 
 
